@@ -227,6 +227,15 @@ def meta_problem(t):
             return 'order %s != len(cores) %s' % (t.order, len(t.cores))
         if len(t.row_dims) != t.order or len(t.col_dims) != t.order or len(t.ranks) != t.order + 1:
             return 'attribute lengths %s %s %s for order %s' % (len(t.row_dims), len(t.col_dims), len(t.ranks), t.order)
+        import numbers
+        for nm in ('row_dims', 'col_dims', 'ranks'):
+            v = getattr(t, nm)
+            if not isinstance(v, list):
+                return '%s is a %s, not a list' % (nm, type(v).__name__)
+            if not all(isinstance(x, numbers.Integral) and not isinstance(x, bool) for x in v):
+                return '%s holds non-integers: %s' % (nm, [type(x).__name__ for x in v])
+        if not isinstance(t.order, numbers.Integral):
+            return 'order is a %s' % type(t.order).__name__
         for i, c in enumerate(t.cores):
             if not isinstance(c, np.ndarray) or c.ndim != 4:
                 return 'core %d is not a 4-way ndarray (ndim=%s)' % (i, getattr(c, 'ndim', None))
